@@ -10,7 +10,7 @@ package arbitrator
 // Projection (field reads only):
 //   obs.jobs[name] = {pod: spec.podRef.name, phase: status.phase ("" -> "Pending"),
 //                     passed: annotation passed-arbitration == "true",
-//                     inMap: filter.arbitratedPodMigrationJobs[uid], waiting: uid in arbitratorImpl.waitingCollection}
+//                     waiting: uid in arbitratorImpl.waitingCollection}
 //   obs.ready[pod] = PodReady condition of the pod object
 //
 // Generation keeps to the quantifier of the property: pods are never deleted, a job is only created for a
@@ -357,8 +357,8 @@ type c16aJobObs struct {
 	Pod     string `json:"pod"`
 	Phase   string `json:"phase"`
 	Passed  bool   `json:"passed"`
-	InMap   bool   `json:"inMap"`
 	Waiting bool   `json:"waiting"`
+	inMap   bool   // arbitrated-jobs map (implementation detail, logged under "impl" for debugging only)
 }
 
 func (w *c16aWorld) obsJobs() map[string]c16aJobObs {
@@ -383,7 +383,7 @@ func (w *c16aWorld) obsJobs() map[string]c16aJobObs {
 		out[j.Name] = c16aJobObs{
 			Pod: pod, Phase: phase,
 			Passed:  j.Annotations[AnnotationPassedArbitration] == "true",
-			InMap:   w.arb.filter.checkJobPassedArbitration(j.UID),
+			inMap:   w.arb.filter.checkJobPassedArbitration(j.UID),
 			Waiting: waiting,
 		}
 	}
@@ -403,6 +403,17 @@ func (w *c16aWorld) obs() vu.Ev {
 		ready[name] = r
 	}
 	return vu.Ev{"jobs": w.obsJobs(), "ready": ready}
+}
+
+func (w *c16aWorld) impl() vu.Ev {
+	marked := []string{}
+	for name, o := range w.obsJobs() {
+		if o.inMap {
+			marked = append(marked, name)
+		}
+	}
+	sort.Strings(marked)
+	return vu.Ev{"arbitratedMap": marked}
 }
 
 // exec runs one op on the real code and records it (with the projection after it)
@@ -486,6 +497,7 @@ func (w *c16aWorld) exec(o c16aOp) vu.Ev {
 			w.q.Done(it)
 		}
 		ev["obs"] = w.obs()
+		ev["impl"] = w.impl()
 	})
 	if panicked {
 		ev = vu.Ev{"op": "panic", "during": o.Op, "msg": msg}
